@@ -315,6 +315,33 @@ func c16CircuitChild(c *Ctx, w *bufio.Writer, r *RNG, startAt int, sp c16Spec) e
 		cseed := r.s
 		opts := GenOpts{MinIn: 2, MaxIn: 6, MinGates: 5, MaxGates: 14, MaxOut: 4, Overwrite: false, TwoParty: true}
 		circ := GenCircuit(r, opts)
+		if sp.editsOnly && sp.circ == nil {
+			// door children: a circuit with at least two output bits that take both values
+			opts.MaxOut = 5
+			for try := 0; try < 40; try++ {
+				ok := false
+				if circ.Outputs.Size() >= 2 {
+					for k := 0; k < 16 && !ok; k++ {
+						in := make([]bool, circ.Inputs.Size())
+						for j := range in {
+							in[j] = r.Bool()
+						}
+						ones := 0
+						ob := TruthEval(circ, in)
+						for _, b := range ob {
+							if b {
+								ones++
+							}
+						}
+						ok = ones > 0 && ones < len(ob)
+					}
+				}
+				if ok {
+					break
+				}
+				circ = GenCircuit(r, opts)
+			}
+		}
 		if sp.circ != nil {
 			circ = sp.circ
 		}
